@@ -397,5 +397,7 @@ def close_rule(ctx: Ctx, rule: str = "CLOSE") -> None:
 
 def check(ctx: Ctx) -> None:
     _main_check(ctx)
+    from ..engines.structure import concat_rule      # the bars of a chunk are re-joined through these three functions
+    ctx.floor("concatenation levels decided", concat_rule(ctx), 3)
     from .common import view_deps
     view_deps(ctx)
